@@ -656,3 +656,103 @@ Proof.
     intros [E | []]. inversion E; subst. apply orb_false_iff in Ev. destruct Ev as [Ev1 Ev2].
     apply Z.leb_gt in Ev1. apply N.leb_gt in Ev2. exists b, p. repeat split; auto.
 Qed.
+
+(** * C05 *)
+
+(** global SUCCESS needs every declared child to have succeeded *)
+Theorem c05_success_needs_all w st g gi :
+  reach w st -> tm_glob (s_tm st) g = Some gi -> g_state gi = ST_SUCCESS ->
+  N.of_nat (List.length (g_children gi)) = g_count gi /\ forall p, In p (g_children gi) -> snd p = ST_SUCCESS.
+Proof.
+  intros R Hg Hs. destruct (reach_kinv _ _ R g gi Hg) as [Sh _].
+  unfold shape, ST_BEGIN, ST_SUCCESS, ST_FAILURE, ST_ROLLBACK, ST_BEGIN_FAILURE, ST_BEGIN_ROLLBACK in *.
+  destruct Sh as [[E _] | [[E [Hk Hf]] | [[E _] | [[E _] | [[E _] | [E _]]]]]]; try (rewrite Hs in E; discriminate).
+  split; [exact Hf|]. intros p Hp. specialize (Hk p Hp). simpl in Hk. destruct Hk as [Hk | []]. symmetry. exact Hk.
+Qed.
+
+(** after a failure or a timeout every child is in a failure / rollback status *)
+Theorem c05_fail_children w st g gi :
+  reach w st -> tm_glob (s_tm st) g = Some gi ->
+  g_state gi <> ST_BEGIN -> g_state gi <> ST_SUCCESS ->
+  forall p, In p (g_children gi) ->
+            snd p = ST_BEGIN_FAILURE \/ snd p = ST_FAILURE \/ snd p = ST_BEGIN_ROLLBACK \/ snd p = ST_ROLLBACK.
+Proof.
+  intros R Hg Hn1 Hn2 p Hp. destruct (reach_kinv _ _ R g gi Hg) as [Sh _].
+  unfold shape in Sh.
+  destruct Sh as [[E _] | [[E _] | [[E Hk] | [[E [Hk _]] | [[E Hk] | [E [Hk _]]]]]]]; try contradiction;
+    specialize (Hk p Hp); simpl in Hk; intuition.
+Qed.
+
+(** the global status can only become SUCCESS from BEGIN: once failed or timed out, never SUCCESS *)
+Definition gstate (t : txm) (g : gid) : option N :=
+  match tm_glob t g with Some gi => Some (g_state gi) | None => None end.
+Definition g_ok (a b : option N) : Prop :=
+  b = a \/ (a = None) \/ (a = Some ST_BEGIN) \/
+  (a = Some ST_BEGIN_FAILURE /\ b = Some ST_FAILURE) \/ (a = Some ST_BEGIN_ROLLBACK /\ b = Some ST_ROLLBACK).
+
+Lemma g_ok_step w h b sf sd terr t t' ch g :
+  KInv t -> tm_step cfg_fixed w h b sf sd terr t = Some (TmOk t' ch) -> g_ok (gstate t g) (gstate t' g).
+Proof.
+  intros K H. apply tm_step_inv in H. unfold g_ok, gstate.
+  inversion H; subst; try (left; reflexivity).
+  - match goal with Hb : bm_change _ _ _ _ _ _ _ _ _ _ |- _ => inversion Hb; subst; simpl; unfold upd end.
+    + destruct (gid_eqb g g0) eqn:E.
+      * apply gid_eqb_eq in E. subst g0. right. left. match goal with Hn : tm_glob t g = None |- _ => rewrite Hn end. reflexivity.
+      * left. subst t1. destruct terr; [reflexivity|].
+        destruct (tm_add_timeout_fields cfg_fixed t hh (TGid g0)) as [_ [A _]]. rewrite A. reflexivity.
+    + destruct (gid_eqb g g0) eqn:E; [|left; reflexivity].
+      apply gid_eqb_eq in E. subst g0. left. match goal with Hn : tm_glob t g = Some _ |- _ => rewrite Hn end. reflexivity.
+    + destruct (gid_eqb g g0) eqn:E.
+      * apply gid_eqb_eq in E. subst g0. right. right. left.
+        match goal with Hn : tm_glob t g = Some _ |- _ => rewrite Hn end. congruence.
+      * left. match goal with Hr : tm_remove_timeout _ _ _ = Some _ |- _ => apply tm_remove_timeout_fields in Hr; destruct Hr as [_ [A _]] end.
+        rewrite A. reflexivity.
+    + destruct (gid_eqb g g0) eqn:E; [|left; reflexivity].
+      apply gid_eqb_eq in E. subst g0. left. match goal with Hn : tm_glob t g = Some _ |- _ => rewrite Hn end. reflexivity.
+  - match goal with Hr : rp_change _ _ _ _ _ _ |- _ => inversion Hr; subst; simpl end; [left; reflexivity|].
+    assert (Eg : tm_glob t1 = tm_glob t).
+    { destruct rm.
+      - match goal with Hr : tm_remove_timeout _ _ _ = Some _ |- _ => apply tm_remove_timeout_fields in Hr; destruct Hr as [_ [R2 _]] end. exact R2.
+      - match goal with Hr : Some _ = Some _ |- _ => inversion Hr; subst end. reflexivity. }
+    unfold upd. destruct (gid_eqb g g0) eqn:E; [|left; rewrite Eg; reflexivity].
+    apply gid_eqb_eq in E. subst g0.
+    match goal with Hn : tm_glob t g = Some _ |- _ => rewrite Hn end.
+    match goal with Hc : cm_change _ _ _ _ _ |- _ => inversion Hc; subst; simpl end.
+    + right. right. left. congruence.
+    + left. reflexivity.
+    + match goal with Hf : set_fsm (g_state gi) _ = Some _ |- _ => pose proof (set_fsm_receipt_edges _ _ _ Hf) as Hedge end.
+      unfold ST_BEGIN, ST_SUCCESS, ST_FAILURE, ST_ROLLBACK, ST_BEGIN_FAILURE, ST_BEGIN_ROLLBACK in *.
+      destruct Hedge as [[E1 [_ ->]] | [[E1 [_ ->]] | [[E1 [_ ->]] | [[E1 [_ ->]] | [E1 [_ ->]]]]]]; rewrite E1; auto 10.
+Qed.
+
+Lemma g_ok_trans a b c : g_ok a b -> g_ok b c -> g_ok a c.
+Proof.
+  unfold g_ok, ST_BEGIN, ST_FAILURE, ST_ROLLBACK, ST_BEGIN_FAILURE, ST_BEGIN_ROLLBACK.
+  intros [-> | [-> | [-> | [[-> ->] | [-> ->]]]]] H; auto 10;
+    destruct H as [-> | [H | [H | [[H _] | [H _]]]]]; auto 10; try discriminate.
+Qed.
+
+Theorem c05_fail_sticky w st ops st' bm g :
+  reach w st -> Forall (op_wf w) ops -> s_h st + 1 < W64 ->
+  exec_block cfg_fixed w st ops = Some (st', bm) ->
+  gstate (s_tm st) g <> None -> gstate (s_tm st) g <> Some ST_BEGIN -> gstate (s_tm st) g <> Some ST_SUCCESS ->
+  gstate (s_tm st') g <> Some ST_SUCCESS.
+Proof.
+  intros R Hwf Hh E Hex Hnb Hns. pose proof (reach_sinv _ _ R) as S.
+  destruct (exec_block_fixed w st ops S Hwf Hh) as [st2 [bm2 [mid [t2 [E2 [_ F]]]]]].
+  rewrite E in E2. inversion E2; subst st2 bm2.
+  assert (Pmid : KInv (s_tm mid) /\ g_ok (gstate (s_tm st) g) (gstate (s_tm mid) g)).
+  { apply (apply_ops_tm_pres (fun t => KInv t /\ g_ok (gstate (s_tm st) g) (gstate t g)) w (s_h st + 1))
+      with (ops := ops) (i := 0) (touched := false) (st := st) (rs := m_res bm).
+    - intros serial b t c t' c' r [K P] Hh0. split; [eapply kinv_handle; eauto|].
+      apply handle_fixed_inv in Hh0. inversion Hh0; subst; [exact P|].
+      eapply g_ok_trans; [exact P|]. eapply (g_ok_step w); eauto.
+    - exact (bf_ops _ _ _ _ _ _ _ F).
+    - split; [apply (reach_kinv w); exact R | left; reflexivity]. }
+  destruct Pmid as [_ P].
+  unfold gstate at 1. rewrite (bf_glob _ _ _ _ _ _ _ F).
+  destruct (in_l (TGid g) (get_timeout_list t2 (s_h st + 1))).
+  - destruct (tm_glob (s_tm mid) g); simpl; discriminate.
+  - fold (gstate (s_tm mid) g). unfold g_ok, ST_BEGIN, ST_SUCCESS, ST_FAILURE, ST_ROLLBACK, ST_BEGIN_FAILURE, ST_BEGIN_ROLLBACK in *.
+    destruct P as [-> | [P | [P | [[_ ->] | [_ ->]]]]]; try assumption; try contradiction; try discriminate.
+Qed.
